@@ -107,6 +107,8 @@ func (f F) stdtime() F        { return f.opt(gogoproto.E_Stdtime, B(true)) }
 func (f F) stddur() F         { return f.opt(gogoproto.E_Stdduration, B(true)) }
 func (f F) embed() F          { return f.opt(gogoproto.E_Embed, B(true)).opt(gogoproto.E_Jsontag, S("")) }
 func (f F) cast(t string) F   { return f.opt(gogoproto.E_Casttype, S(t)) }
+func (f F) castkey(t string) F { return f.opt(gogoproto.E_Castkey, S(t)) }
+func (f F) castvalue(t string) F { return f.opt(gogoproto.E_Castvalue, S(t)) }
 func (f F) custom(t string) F { return f.opt(gogoproto.E_Customtype, S(t)) }
 func (f F) json(t string) F   { return f.opt(gogoproto.E_Jsontag, S(t)) }
 
